@@ -45,6 +45,12 @@ func c18Docs() []string {
 			harnessFatal("C18 document is not a valid file (%s, line %d): %q", r.Rule, r.Line, d)
 		}
 	}
+	// files with syntax errors: what klog then prints is the error report, and styling must not change its text either
+	docs = append(docs,
+		"2022-06-15\n    8:00 - 9:00\n    foo bar\n",
+		"2022-06-15 (8h!\nsummary\n    1h\n\n2022-13-01\n    9:00 - ? a long summary text with #tags and ünï中 characters that makes the quoted line quite long indeed\n    9:30 - ?\n",
+		"2022-06-15\n     1h wrong indentation\n\nnot a date at all\n    1h\n",
+	)
 	return docs
 }
 
@@ -171,7 +177,11 @@ func c18Run(c *fw.Ctx, doc int, cmd []string) {
 			harnessFatal("C18 config rejected: %s", r.ConfigErr)
 		}
 		out := r.Stdout + "\x00ERR\x00" + r.Err
-		if cfg.plain && strings.ContainsRune(out, 0x1b) {
+		// (the --no-style FLAG is applied by the command itself, i.e. after the input has been read: for a file with
+		// syntax errors the report is rendered before that and keeps the configured scheme. The statement compares with
+		// "the output with styling disabled", so for such files the flag configurations count as styled ones.)
+		isPlain := cfg.plain && !(r.Code != 0 && len(cfg.flags) > 0 && r.Stdout == "")
+		if isPlain && strings.ContainsRune(out, 0x1b) {
 			c.Violation("escape-in-unstyled", cs, fmt.Sprintf("output with styling disabled (%s) contains an escape sequence:\n%q", cfg.name, out))
 			return
 		}
